@@ -242,7 +242,7 @@ func c15Unit(c *RunCtx, unit int) {
 func init() {
 	register(&Check{
 		ID: "C15", Level: "exploration",
-		Rule: "a corpus of ~60 return-target spellings (absolute URLs in several schemes and cases, '//h', '///h', '/\\h', '\\/h', '\\\\h', embedded TAB/LF/CR, leading space/NUL/controls, 'https:h', 'http:/h', userinfo and backslash-userinfo tricks, ports, IPv6, javascript:/data:/custom schemes, 3 KB values, plus benign same-site paths; thorough adds 400 seeded prefix x separator x host x suffix compositions) x every flow that follows the parameter (password login with redir in body and in query, OTP login, TOTP and SMS second step incl. the hijack redirect that carries the query, OAuth2 start→callback, the access middleware's own redirect followed by the login it leads to) x form and JSON mode x two mount paths. Every emitted Location header (as net/http puts it on the wire) and JSON 'location' is classified by a WHATWG-faithful resolver against https and http deployments of the site (the resolver has a 75-row self-test run before every unit): it must never be another origin, and an off-site supplied value must be replaced by the configured default. distinct_nontrivial = distinct (flow, header/json, class of supplied value, spelling family, class of emitted value, final step) signatures.",
+		Rule:  "a corpus of ~60 return-target spellings (absolute URLs in several schemes and cases, '//h', '///h', '/\\h', '\\/h', '\\\\h', embedded TAB/LF/CR, leading space/NUL/controls, 'https:h', 'http:/h', userinfo and backslash-userinfo tricks, ports, IPv6, javascript:/data:/custom schemes, 3 KB values, plus benign same-site paths; thorough adds 400 seeded prefix x separator x host x suffix compositions) x every flow that follows the parameter (password login with redir in body and in query, OTP login, TOTP and SMS second step incl. the hijack redirect that carries the query, OAuth2 start→callback, the access middleware's own redirect followed by the login it leads to) x form and JSON mode x two mount paths. Every emitted Location header (as net/http puts it on the wire) and JSON 'location' is classified by a WHATWG-faithful resolver against https and http deployments of the site (the resolver has a 75-row self-test run before every unit): it must never be another origin, and an off-site supplied value must be replaced by the configured default. distinct_nontrivial = distinct (flow, header/json, class of supplied value, spelling family, class of emitted value, final step) signatures.",
 		Units: func(t string) int { return 4 },
 		Run:   c15Unit,
 		Floors: func(t string) map[string]int {
